@@ -113,6 +113,9 @@ def gen_plan(rng, tier, idx, opts):
                 n = int(10 ** rng.uniform(0, np.log10(nmax))) if nmax > 1 else 1
                 if rng.random() < 0.1:
                     n = rng.choice([L, nshape, L * nshape, 1, 2])      # coincidences of sizes
+                elif rng.random() < 0.12:
+                    longest = max([o_["n"] for o_ in ops if o_["op"] == "generate" and o_["n"]] or [0])
+                    n = longest + rng.choice([1, 1, -1, 0]) if longest > 1 else rng.choice([257, 513, 1025])   # just past the longest request so far / past a power of two
                 n = max(1, min(n, nmax))
             ops.append({"op": "generate", "n": n})
             pos += (n or 1)
